@@ -88,6 +88,51 @@ type world struct {
 	routeEach map[string]bool // connector ids that route per destination pipeline
 	shared    map[string]*sharedInner
 	failErrs  []error // the errors returned by scripted failures (to check errors.Is on the service result)
+	// stem != "": the LONG naming scheme.  The specification knows components and pipelines as opaque identifiers; how an
+	// identifier is spelled must not matter.  Short scheme: id x -> component.ID of type x without name, pipelines
+	// <signal>/<name>.  Long scheme: receivers / processors / exporters are instances of ONE type per kind ("rcv/…",
+	// "proc/…", "exp/…": one factory serving several ids, as with real components), every name (pipelines too) is a
+	// 200-byte common stem followed by the identifier -- valid names (<= 1024 characters) that differ only after a
+	// long common prefix (seeded change C09-5 truncated identifiers at 128 bytes when deriving node identity).
+	stem string
+}
+
+var longStem = "tenant-" + strings.Repeat("verif.long-name_", 12) + "é-"
+
+// cid: the component.ID used for model identifier x of the given kind ("receiver" | "processor" | "exporter" | other).
+func (w *world) cid(kind, x string) component.ID {
+	if w.stem == "" {
+		return component.MustNewID(x)
+	}
+	typ := x
+	switch kind {
+	case "receiver":
+		typ = "rcv"
+	case "processor":
+		typ = "proc"
+	case "exporter":
+		typ = "exp"
+	}
+	return component.MustNewIDWithName(typ, w.stem+x)
+}
+
+// mid: the model identifier behind a component.ID (inverse of cid).
+func (w *world) mid(id component.ID) string {
+	if w.stem != "" && strings.HasPrefix(id.Name(), w.stem) {
+		return id.Name()[len(w.stem):]
+	}
+	return id.String()
+}
+
+// mpid: the model's spelling of a pipeline id.
+func (w *world) mpid(pid pipeline.ID) string {
+	if w.stem != "" && strings.HasPrefix(pid.Name(), w.stem) {
+		if n := pid.Name()[len(w.stem):]; n != "" {
+			return pid.Signal().String() + "/" + n
+		}
+		return pid.Signal().String()
+	}
+	return pid.String()
 }
 
 func newWorld() *world {
@@ -239,7 +284,7 @@ type vReceiver struct{ base }
 
 func (w *world) receiverFactory(typ string, sharedAcrossSignals bool) receiver.Factory {
 	mk := func(sig string, set receiver.Settings, next any) (*vReceiver, error) {
-		r := &vReceiver{base{w: w, k: "receiver", id: set.ID.String(), sig: sig, inst: w.inst()}}
+		r := &vReceiver{base{w: w, k: "receiver", id: w.mid(set.ID), sig: sig, inst: w.inst()}}
 		w.log(r.ev("create"))
 		w.mu.Lock()
 		w.receivers = append(w.receivers, &rcvInst{id: r.id, sig: sig, next: next})
@@ -293,7 +338,7 @@ func (p *vProcessor) ConsumeProfiles(ctx context.Context, d pprofile.Profiles) e
 
 func (w *world) processorFactory(typ string) processor.Factory {
 	mk := func(sig string, set processor.Settings, next any) (*vProcessor, error) {
-		p := &vProcessor{base: base{w: w, k: "processor", id: set.ID.String(), sig: sig, inst: w.inst()}, next: next}
+		p := &vProcessor{base: base{w: w, k: "processor", id: w.mid(set.ID), sig: sig, inst: w.inst()}, next: next}
 		w.log(p.ev("create"))
 		return p, nil
 	}
@@ -341,7 +386,7 @@ func (x *vExporter) ConsumeProfiles(_ context.Context, d pprofile.Profiles) erro
 
 func (w *world) exporterFactory(typ string) exporter.Factory {
 	mk := func(sig string, set exporter.Settings) (*vExporter, error) {
-		x := &vExporter{base{w: w, k: "exporter", id: set.ID.String(), sig: sig, inst: w.inst()}}
+		x := &vExporter{base{w: w, k: "exporter", id: w.mid(set.ID), sig: sig, inst: w.inst()}}
 		w.log(x.ev("create"))
 		return x, nil
 	}
@@ -405,7 +450,7 @@ func (c *vConnector) pass(ctx context.Context, data any) error {
 				errs = errors.Join(errs, err)
 				continue
 			}
-			hop := fmt.Sprintf("conn,%s,%s,%s,%s", c.id, c.sig, c.sig2, pid.String())
+			hop := fmt.Sprintf("conn,%s,%s,%s,%s", c.id, c.sig, c.sig2, c.w.mpid(pid))
 			errs = errors.Join(errs, feed(ctx, cons, newPayload(c.sig2, tag, appendTrail(trail, hop))))
 		}
 		return errs
@@ -426,7 +471,7 @@ func (c *vConnector) ConsumeProfiles(ctx context.Context, d pprofile.Profiles) e
 // connectorFactory supports exactly the given <<from, to>> pairs.
 func (w *world) connectorFactory(typ string, pairs [][2]string) connector.Factory {
 	mk := func(from, to string, set connector.Settings, next any) (*vConnector, error) {
-		c := &vConnector{base: base{w: w, k: "connector", id: set.ID.String(), sig: from, sig2: to, inst: w.inst()}, next: next}
+		c := &vConnector{base: base{w: w, k: "connector", id: w.mid(set.ID), sig: from, sig2: to, inst: w.inst()}, next: next}
 		w.log(c.ev("create"))
 		return c, nil
 	}
@@ -543,7 +588,7 @@ func (w *world) extensionFactory(typ string) extension.Factory {
 	return extension.NewFactory(component.MustNewType(typ), func() component.Config { return &extConfig{} },
 		func(_ context.Context, set extension.Settings, cfg component.Config) (extension.Extension, error) {
 			ec := cfg.(*extConfig)
-			e := vExtension{base: base{w: w, k: "extension", id: set.ID.String(), inst: w.inst()}, deps: ec.Deps}
+			e := vExtension{base: base{w: w, k: "extension", id: w.mid(set.ID), inst: w.inst()}, deps: ec.Deps}
 			w.log(e.ev("create"))
 			switch {
 			case len(e.deps) > 0 && ec.Watch:
